@@ -415,97 +415,95 @@ func runC10(c *Ctx) {
 				}
 			}
 		})
-		// size stores
-		allInstrs(fn, func(in ssa.Instruction) {
+		// size stores: each must be dominated by exactly one matching list edit
+		sizeKind := func(in ssa.Instruction) string {
 			st, ok := in.(*ssa.Store)
 			if !ok {
-				return
+				return ""
 			}
 			fa, ok := st.Addr.(*ssa.FieldAddr)
 			if !ok {
-				return
+				return ""
 			}
 			if _, f := fieldVarOf(fa); !sameField(f, sizeF) {
-				return
+				return ""
 			}
-			c.sawFn(name)
-			countCalls := func(target *ssa.Function) (n int, last *ssa.Call) {
-				for _, in2 := range st.Block().Instrs {
-					if call, ok := in2.(*ssa.Call); ok && staticCallee(&call.Call) == target {
-						n++
-						last = call
-					}
-				}
-				return
-			}
-			key := name + ":size"
 			if isConstInt(st.Val, 0) {
-				n, _ := countCalls(lClear)
-				c.judge(n == 1, "R-SIZE-PAIR", key+"=0", st.Pos(), "paired with list.Clear", "size reset without clearing the list")
-				return
+				return "=0"
 			}
 			if bo, ok := st.Val.(*ssa.BinOp); ok {
 				if _, f := loadedField(bo.X); f != nil && sameField(f, sizeF) && isConstInt(bo.Y, 1) {
 					switch bo.Op {
 					case token.ADD:
-						n, call := countCalls(cAdd)
-						one := false
-						if call != nil && len(call.Call.Args) == 2 {
-							if sl, ok := call.Call.Args[1].(*ssa.Slice); ok {
-								if al, ok := sl.X.(*ssa.Alloc); ok {
-									if at, ok := al.Type().Underlying().(*types.Pointer).Elem().Underlying().(*types.Array); ok && at.Len() == 1 {
-										one = true
-									}
-								}
-							}
-						}
-						c.judge(n == 1 && one, "R-SIZE-PAIR", key+"+1", st.Pos(), "paired with a one-element back.Add", "size incremented without exactly one one-element insertion in the same block")
-						return
+						return "+1"
 					case token.SUB:
-						n, call := countCalls(cRemove)
-						notEnd := false
-						if call != nil {
-							for fc, truth := range callFactsAt(st.Block()) {
-								if cal := staticCallee(&fc.Call); cal != nil && cal.Name() == "AtEnd" && !truth && fc.Call.Args[0] == call.Call.Args[0] {
-									notEnd = true
-								}
-							}
-						}
-						c.judge(n == 1 && notEnd, "R-SIZE-PAIR", key+"-1", st.Pos(), "paired with cur.Remove on the not-at-end path", "size decremented without exactly one removal on a path where the cursor is known not to be at the end")
-						return
+						return "-1"
 					}
 				}
 			}
-			c.undecided("R-SIZE-PAIR", key, st.Pos(), "unrecognised size update "+sym(st.Val))
-		})
-	}
-	// converse: every Cursor.Add/Remove/List.Clear in Queue methods has a size store in its block
-	for _, fn := range P.Methods("mlink", "Queue") {
-		allInstrs(fn, func(in ssa.Instruction) {
+			return "?"
+		}
+		editKind := func(in ssa.Instruction) string {
 			call, ok := in.(*ssa.Call)
 			if !ok {
-				return
+				return ""
 			}
-			cal := staticCallee(&call.Call)
-			if cal != cAdd && cal != cRemove && cal != lClear && cal != cTrunc {
-				return
-			}
-			has := false
-			for _, in2 := range call.Block().Instrs {
-				if st, ok := in2.(*ssa.Store); ok {
-					if fa, ok := st.Addr.(*ssa.FieldAddr); ok {
-						if _, f := fieldVarOf(fa); sameField(f, sizeF) {
-							has = true
+			switch staticCallee(&call.Call) {
+			case cAdd:
+				one := false
+				if len(call.Call.Args) == 2 {
+					if sl, ok := call.Call.Args[1].(*ssa.Slice); ok {
+						if al, ok := sl.X.(*ssa.Alloc); ok {
+							if at, ok := al.Type().Underlying().(*types.Pointer).Elem().Underlying().(*types.Array); ok && at.Len() == 1 {
+								one = true
+							}
 						}
 					}
 				}
+				if one {
+					return "+1"
+				}
+				return "+?"
+			case cRemove:
+				// only counts as a removal on a path where the cursor is known not to be at the end
+				for fc, truth := range callFactsAt(call.Block()) {
+					if cal := staticCallee(&fc.Call); cal != nil && cal.Name() == "AtEnd" && !truth && fc.Call.Args[0] == call.Call.Args[0] {
+						return "-1"
+					}
+				}
+				return "-?"
+			case lClear:
+				return "=0"
+			case cTrunc:
+				return "-?"
 			}
-			if !has {
-				c.bad("R-SIZE-PAIR", fnName(fn)+":"+cal.Name()+" without size update", call.Pos(), "the list changes length but size is not updated in the same block")
+			return ""
+		}
+		allInstrs(fn, func(in ssa.Instruction) {
+			if k := sizeKind(in); k != "" {
+				c.sawFn(name)
+				key := name + ":size" + k
+				if k == "?" {
+					c.undecided("R-SIZE-PAIR", key, in.Pos(), "unrecognised size update")
+					return
+				}
+				n := 0
+				allInstrs(fn, func(in2 ssa.Instruction) {
+					if editKind(in2) == k && dominatesInstr(in2, in) {
+						n++
+					}
+				})
+				c.judge(n == 1, "R-SIZE-PAIR", key, in.Pos(), "preceded on every path by exactly one matching list edit", fmt.Sprintf("size update %s is dominated by %d matching list edits (want exactly one: a one-element Add, a Remove on the not-at-end path, or Clear)", k, n))
+			}
+			if k := editKind(in); k != "" {
+				// converse: every list edit is followed on all paths by exactly one matching size update
+				okP, wit := mustPassToExit(P, in, func(in2 ssa.Instruction) bool { return sizeKind(in2) == k })
+				if !okP {
+					c.bad("R-SIZE-PAIR", name+":edit"+k+" without size update", in.Pos(), "the list changes length but size is not updated to match on some path ("+wit+")")
+				}
 			}
 		})
 	}
-
 	// ---- R-RING-MIRROR
 	ringT := P.Named("ring", "Ring")
 	nextF, prevF := P.Field("ring", "Ring", "next"), P.Field("ring", "Ring", "prev")
